@@ -56,10 +56,16 @@ func prefixPaths(svc map[string]any, dir string) map[string]any {
 			}
 		}
 	}
-	if l, ok := out["env_file"].([]any); ok {
-		for _, e := range l {
-			if m, ok := e.(map[string]any); ok {
+	switch l := out["env_file"].(type) {
+	case string:
+		out["env_file"] = rel(l)
+	case []any:
+		for i, e := range l {
+			switch m := e.(type) {
+			case map[string]any:
 				m["path"] = rel(m["path"])
+			case string:
+				l[i] = rel(m)
 			}
 		}
 	}
@@ -69,9 +75,18 @@ func prefixPaths(svc map[string]any, dir string) map[string]any {
 		}
 	}
 	if l, ok := out["volumes"].([]any); ok {
-		for _, e := range l {
+		for i, e := range l {
 			if m, ok := e.(map[string]any); ok && m["type"] == "bind" {
 				m["source"] = rel(m["source"])
+			}
+			if str, ok := e.(string); ok && (strings.HasPrefix(str, "./") || strings.HasPrefix(str, "../")) {
+				// short syntax of a bind mount: only the source is a local path
+				k := strings.Index(str, ":")
+				src := filepath.Join(dir, str[:k])
+				if !strings.HasPrefix(src, ".") {
+					src = "./" + src
+				}
+				l[i] = src + str[k:]
 			}
 		}
 	}
@@ -105,7 +120,7 @@ func genC05(t *rapid.T) c05Case {
 	svc := svcs[name].(map[string]any)
 	// a service must keep its identity: no container_name clash etc. is needed, bases are only templates
 	nbases := rapid.IntRange(1, 4).Draw(t, "nbases")
-	sp := &splitter{t: t, n: nbases + 1, used: map[string]int{}, noTags: true}
+	sp := &splitter{t: t, n: nbases + 1, used: map[string]int{}, noTags: true, carryRequired: true}
 	frs := sp.splitMap("services."+name, svc)
 	parts := make([]map[string]any, nbases+1)
 	for i, f := range frs {
@@ -443,9 +458,139 @@ func c05Negatives() []c05Case {
 	return out
 }
 
+// c05Inherited: an intermediate service of a chain mentions an inherited entry without repeating one of its
+// attributes; the attribute keeps the inherited value wherever the intermediate service is declared.
+type c05InhCase struct {
+	What  string    `json:"what"`
+	Where string    `json:"where"` // file of the intermediate service
+	Files []memFile `json:"files"`
+}
+
+func c05InheritedCases() []c05InhCase {
+	var out []c05InhCase
+	for _, where := range []string{"compose.yaml", "sub/mid.yaml"} {
+		for _, baseFile := range []string{"compose.yaml", "sub/mid.yaml", "base/base.yaml"} {
+			for _, what := range []string{"depends_on.required", "depends_on.restart", "networks.priority", "healthcheck.retries", "deploy.resources.limits.pids", "logging.options", "build.args"} {
+				var baseAttr, midAttr string
+				switch what {
+				case "depends_on.required":
+					baseAttr = "    depends_on:\n      db: {condition: service_healthy, required: false}\n"
+					midAttr = "    depends_on:\n      db: {condition: service_healthy}\n"
+				case "depends_on.restart":
+					baseAttr = "    depends_on:\n      db: {condition: service_healthy, restart: true}\n"
+					midAttr = "    depends_on:\n      db: {condition: service_started}\n"
+				case "networks.priority":
+					baseAttr = "    networks:\n      net: {priority: 7, aliases: [a]}\n"
+					midAttr = "    networks:\n      net: {aliases: [b]}\n"
+				case "healthcheck.retries":
+					baseAttr = "    healthcheck: {test: [CMD, \"true\"], retries: 7}\n"
+					midAttr = "    healthcheck: {interval: 5s}\n"
+				case "deploy.resources.limits.pids":
+					baseAttr = "    deploy: {resources: {limits: {pids: 7}}}\n"
+					midAttr = "    deploy: {resources: {limits: {cpus: '0.5'}}}\n"
+				case "logging.options":
+					baseAttr = "    logging: {driver: json-file, options: {max-size: 7m}}\n"
+					midAttr = "    logging: {options: {max-file: '3'}}\n"
+				case "build.args":
+					baseAttr = "    build: {context: /ctx, args: {A: '7'}}\n"
+					midAttr = "    build: {args: [B=1]}\n"
+				}
+				files := map[string]string{}
+				add := func(file, svc string) {
+					if files[file] == "" {
+						files[file] = "services:\n"
+					}
+					files[file] += svc
+				}
+				ref := func(from, to, svc string) string {
+					if from == to {
+						return fmt.Sprintf("    extends: {service: %s}\n", svc)
+					}
+					return fmt.Sprintf("    extends: {file: %s, service: %s}\n", relFile(from, to), svc)
+				}
+				add("compose.yaml", "  db:\n    image: db\n    networks: [net]\n  web:\n"+ref("compose.yaml", where, "mid"))
+				add(where, "  mid:\n"+ref(where, baseFile, "base")+midAttr)
+				add(baseFile, "  base:\n    image: app\n"+baseAttr)
+				files["compose.yaml"] += "networks:\n  net: {}\n"
+				cs := c05InhCase{What: what, Where: where}
+				for _, n := range []string{"base/base.yaml", "compose.yaml", "sub/mid.yaml"} {
+					if files[n] != "" {
+						cs.Files = append(cs.Files, memFile{Name: n, Content: files[n]})
+					}
+				}
+				out = append(out, cs)
+			}
+		}
+	}
+	return out
+}
+
+func c05InheritedCheck(c *Ctx, cs c05InhCase) *Failure {
+	c.Label("inherited:" + cs.What)
+	c.Label("intermediate-in:" + cs.Where)
+	lc := loadCase{Files: cs.Files, Main: []string{"compose.yaml"}}
+	r := lc.load()
+	if r.Panic != nil {
+		return r.Panic
+	}
+	desc := func() string {
+		var b strings.Builder
+		for _, f := range cs.Files {
+			b.WriteString("--- " + f.Name + "\n" + f.Content)
+		}
+		return b.String()
+	}
+	c.NonTrivial(jsonKey(cs.Files), cs)
+	if r.Err != nil {
+		return failf("c05:chain-rejected:inherited:"+cs.What, "the chain fails to load: %v\n%s", r.Err, desc())
+	}
+	web := r.Project.Services["web"]
+	bad := ""
+	switch cs.What {
+	case "depends_on.required":
+		if d, ok := web.DependsOn["db"]; !ok || d.Required || d.Condition != "service_healthy" {
+			bad = fmt.Sprintf("depends_on.db = %+v, the base says required: false and nothing above it mentions `required`", d)
+		}
+	case "depends_on.restart":
+		if d, ok := web.DependsOn["db"]; !ok || !d.Restart || d.Condition != "service_started" {
+			bad = fmt.Sprintf("depends_on.db = %+v, want restart: true from the base and condition service_started from the intermediate", d)
+		}
+	case "networks.priority":
+		if n := web.Networks["net"]; n == nil || n.Priority != 7 || len(n.Aliases) != 2 {
+			bad = fmt.Sprintf("networks.net = %+v, want priority 7 and aliases [a b]", n)
+		}
+	case "healthcheck.retries":
+		if h := web.HealthCheck; h == nil || h.Retries == nil || *h.Retries != 7 || h.Interval == nil {
+			bad = fmt.Sprintf("healthcheck = %+v, want retries 7 and interval 5s", h)
+		}
+	case "deploy.resources.limits.pids":
+		if d := web.Deploy; d == nil || d.Resources.Limits == nil || d.Resources.Limits.Pids != 7 || d.Resources.Limits.NanoCPUs == 0 {
+			bad = fmt.Sprintf("deploy = %+v, want limits.pids 7 and limits.cpus 0.5", d)
+		}
+	case "logging.options":
+		if l := web.Logging; l == nil || l.Driver != "json-file" || l.Options["max-size"] != "7m" || l.Options["max-file"] != "3" {
+			bad = fmt.Sprintf("logging = %+v, want json-file with both options", l)
+		}
+	case "build.args":
+		if b := web.Build; b == nil || b.Args["A"] == nil || *b.Args["A"] != "7" || b.Args["B"] == nil || b.Context != "/ctx" {
+			bad = fmt.Sprintf("build = %+v, want context /ctx and args A=7 B=1", b)
+		}
+	}
+	if bad != "" {
+		sig := "c05:inherited-value-lost:" + cs.What
+		if cs.What == "depends_on.required" {
+			sig = "c05:inherited-optional-dependency-becomes-required"
+		}
+		return failf(sig, "service web (intermediate service in %s): %s\n%s", cs.Where, bad, desc())
+	}
+	return nil
+}
+
 func TestC05(t *testing.T) {
 	c := NewCtx(t, "C05")
 	neg := c05Negatives()
 	RunEnum(c, t, "negatives", len(neg), func(i int) c05Case { return neg[i] }, c05Check, true)
+	inh := c05InheritedCases()
+	RunEnum(c, t, "inherited-through-intermediate", len(inh), func(i int) c05InhCase { return inh[i] }, c05InheritedCheck, true)
 	RunRapid(c, t, Sub[c05Case]{Kind: "chains", Quick: 1200, Thorough: 40_000, Gen: genC05, Check: c05Check})
 }
